@@ -98,20 +98,42 @@ def encode_chain(chain, data, variant=0, geom=None, row_types=None):
     return out, parms
 
 
-def image_xobject(pk, w, h, chain, variant=0, row_types=None, samples=None):
+ABBREV = {"FlateDecode": "Fl", "LZWDecode": "LZW", "ASCII85Decode": "A85", "ASCIIHexDecode": "AHx", "RunLengthDecode": "RL",
+          "DCTDecode": "DCT", "CCITTFaxDecode": "CCF"}
+PLAIN_SPELLING = ("name", "direct", "name", "direct")
+
+
+def image_xobject(pk, w, h, chain, variant=0, row_types=None, samples=None, spelling=None, new=None):
+    """spelling = (filter, parms, colour space, geometry) - how the stream dictionary spells its entries:
+       filter   name | abbr (abbreviated names) | arr1 (always an array) | indirect (/Filter n 0 R) | arrind (array of n 0 R)
+       parms    direct | indirect (/DecodeParms n 0 R) | arr (always an array)
+       cs       name | indirect | array ([/DeviceGray])
+       geometry direct | indirect (/Width /Height /BitsPerComponent n 0 R)
+    new(value) -> Ref creates the indirect objects."""
+    fsp, psp, csp, gsp = spelling or PLAIN_SPELLING
+    if (fsp in ("indirect", "arrind") or psp == "indirect" or csp == "indirect" or gsp == "indirect") and new is None:
+        raise MachineryError("indirect spellings need an object allocator")
     bits, cs, ncomp = PIX[pk]
-    attrs = {"Type": Name("XObject"), "Subtype": Name("Image"), "Width": w, "Height": h, "BitsPerComponent": bits,
-             "ColorSpace": Name(cs)}
-    if len(chain) == 1:
-        attrs["Filter"] = Name(FILTER_NAME[chain[0]])
-    elif chain:
-        attrs["Filter"] = [Name(FILTER_NAME[f]) for f in chain]
+    ind = (lambda v: new(v)) if gsp == "indirect" else (lambda v: v)
+    attrs = {"Type": Name("XObject"), "Subtype": Name("Image"), "Width": ind(w), "Height": ind(h), "BitsPerComponent": ind(bits),
+             "ColorSpace": new(Name(cs)) if csp == "indirect" else [Name(cs)] if csp == "array" else Name(cs)}
+    names = [Name(ABBREV.get(FILTER_NAME[f], FILTER_NAME[f]) if fsp == "abbr" else FILTER_NAME[f]) for f in chain]
+    if chain:
+        if fsp in ("name", "abbr"):
+            attrs["Filter"] = names[0] if len(chain) == 1 else names
+        elif fsp == "arr1":
+            attrs["Filter"] = names
+        elif fsp == "indirect":
+            attrs["Filter"] = new(names[0] if len(chain) == 1 else names)
+        else:
+            attrs["Filter"] = [new(nm) for nm in names]
     if "JBIG2" in chain:
         raise MachineryError("JBIG2 payloads are not realised")
     data = samples if samples is not None else image_data(pk, w, h)
     enc, parms = encode_chain(chain, data, variant, geom=(ncomp, w, bits), row_types=row_types)
     if any(parms):
-        attrs["DecodeParms"] = parms[0] if len(chain) == 1 else parms
+        shaped = parms if (psp == "arr" or len(chain) > 1) else parms[0]
+        attrs["DecodeParms"] = new(shaped) if psp == "indirect" else shaped
     if chain and chain[-1] in LZW_EARLY and len(K.lzw_codes(data)) < 300:
         raise MachineryError("realiser self-check: a %dx%d %s image gives too few LZW codes for the width switch" % (w, h, pk))
     if len(data) > 4000 and w % 2 == 0 and chain == ["LZW"]:
@@ -160,7 +182,8 @@ def export_doc(imgs, variant=0, pages=1, encrypt=None):
     for im in imgs:
         if im["name"] in page_x:
             flush()
-        page_x[im["name"]] = new(image_xobject(im["pk"], im["w"], im["h"], list(im["filters"]), variant, im.get("row_types"), im.get("samples")))
+        page_x[im["name"]] = new(image_xobject(im["pk"], im["w"], im["h"], list(im["filters"]), variant, im.get("row_types"), im.get("samples"),
+                                                  tuple(im["sp"]) if im.get("sp") else None, new))
         page_body += b"q 10 0 0 10 20 20 cm " + ser_name(im["name"]) + b" Do Q\n"
     flush()
     objs[2] = {"Type": Name("Pages"), "Kids": kids, "Count": len(kids)}
